@@ -578,9 +578,10 @@ impl<'a> World<'a> {
                     meta[0] = who % 2;
                     let key = data::expected_register_key(&meta, &owner.public_key());
                     let base = data::base_register(&owner, meta, &[], false);
-                    let mut ops: Vec<RegisterOp> = items.iter().map(|i| data::register_op(&base, *i as u32, &owner)).collect();
+                    let late = if self.plan.big_registers && who % 2 == 0 { 0xF0 } else { 0 };
+                    let mut ops: Vec<RegisterOp> = items.iter().map(|i| data::register_op(&base, late + *i as u32, &owner)).collect();
                     if self.plan.big_registers && who % 2 == 0 {
-                        ops.extend(data::big_block(&base, 505 + 3 * (counter as u32 % 6)));
+                        ops.extend(data::big_block(&base, 560 + 8 * (counter as u32 % 6)));
                         self.rep.probe("big_register_uploaded");
                     }
                     let reg = data::register_with_ops(&base, &ops);
